@@ -29,6 +29,10 @@ pub mod hist_naming;
 #[path = "/verif/harness/hist_store.rs"]
 pub mod hist_store;
 
+#[cfg(all(not(kani), test))]
+#[path = "/verif/harness/hist_config.rs"]
+pub mod hist_config;
+
 #[path = "/verif/harness/c05.rs"]
 pub mod c05;
 
@@ -61,6 +65,10 @@ mod replay_entry {
             .unwrap_or_default();
         if module == "cweb" {
             super::cweb::replay_file();
+            return;
+        }
+        if module == "config" {
+            super::hist_config::replay_file();
             return;
         }
         if module == "store" {
